@@ -258,6 +258,54 @@ func seq(a, b int) []int {
 	return s
 }
 
-var propC11 = &core.Property{ID: "C11", Gen: genC11, New: func() core.Scenario { return &C11Scenario{} }}
+// c11Grid enumerates the whole (store configuration, replay batch size, log length, start offset,
+// fault kind, fault position) grid up to a small log length.
+func c11Grid(tier string, yield func(core.Scenario)) string {
+	maxL := 3
+	if tier == "thorough" {
+		maxL = 6
+	}
+	stores := []StoreCfg{{Kind: "mem"}, {Kind: "mem", HideStreamer: true}, {Kind: "mem", HideStreamer: true, ShortReads: true},
+		{Kind: "sqlite"}, {Kind: "sqlite", StreamBatch: 1}, {Kind: "sqlite", StreamBatch: 2}, {Kind: "sqlite", StreamBatch: 3},
+		{Kind: "sqlite", HideStreamer: true}, {Kind: "ds"}}
+	n := 0
+	for _, st := range stores {
+		batches := []int{0}
+		if st.HideStreamer || st.Kind == "ds" {
+			batches = []int{0, 1, 2, 3}
+		}
+		faults := []string{"none", "cb-error", "cancel-before", "cancel-in-cb", "read-fail"}
+		switch {
+		case st.Kind == "mem" && !st.HideStreamer:
+			faults = append(faults, "stream-row-fail")
+		case st.Kind == "sqlite":
+			faults = append(faults, "sql-next", "sql-query", "sql-close")
+		case st.Kind == "ds":
+			faults = append(faults, "net-lost-request", "net-lost-response")
+		}
+		for _, b := range batches {
+			for L := 0; L <= maxL; L++ {
+				for from := 0; from <= L; from++ {
+					for _, f := range faults {
+						ks := []int{0}
+						if f != "none" && f != "cancel-before" {
+							ks = nil
+							for k := 0; k <= L-from+1; k++ {
+								ks = append(ks, k)
+							}
+						}
+						for _, k := range ks {
+							n++
+							yield(&C11Scenario{Store: st, BatchSize: b, L: L, From: from, Fault: f, K: k})
+						}
+					}
+				}
+			}
+		}
+	}
+	return fmt.Sprintf("the full grid of %d cases: 9 store configurations x replay batch sizes {unset,1,2,3} (paged stores) x log length 0..%d x every start offset x every applicable fault kind x every fault position 0..remaining+1", n, maxL)
+}
+
+var propC11 = &core.Property{ID: "C11", Gen: genC11, New: func() core.Scenario { return &C11Scenario{} }, Explicit: c11Grid}
 
 func TestC11(t *testing.T) { core.RunProperty(t, propC11) }
